@@ -26,6 +26,7 @@ EXPLANATION = (
     "masks are combined element-wise (isna(result) & notna(input)) before any aggregation; (R7) a coerce method returns its input unchanged only under a guard that compares with the target type. (R8) definite assignment: no function of pandera/engines/ reads a local that a branch-only path from its entry leaves unassigned (CFG may-analysis, optimistic about try bodies and loop bodies, correlated guards pruned) - an UnboundLocalError there would escape coercion instead of a ParserError. " 
     " (R9) polars container coercion stays reachable when a column's name is not a frame column (the name of a regex column is a pattern): truth table of the guards of the per-column coercion call. " 
     " (R10) a pandas-engine coerce method uses Series-only accessors (.dt, .apply, .cat) on its container only under a hasattr / isinstance guard, because Index components hand a pandas Index to coerce. " 
+    " R2 also requires the element predicate to catch every exception (broad handler) and the failure-case report to keep nulls (reshape_failure_cases(..., ignore_na=False)). " 
     "NOT decided: everything value-level - exactness, idempotence, agreement of coerce/coerce_value/check."
 )
 LEVEL_RULE = "one obligation per try_coerce implementation / helper / schema-level site / coerce method / operator"
